@@ -26,9 +26,12 @@ VARIABLES l,        \* next line of the trace
           last,     \* cache id -> the raw logged state of that cache
           gh,       \* cache id -> ghost history (C13)
           stale,    \* cache id -> keys whose recorded size may lag (crashed mutate)
+          taint,    \* "none" | "forget" | "crash": what this segment did that may leak
+          broken,   \* the logged structure was corrupt: nothing more can be concluded
+                    \* from this segment (the corruption itself has been reported)
           nbad      \* number of failed comparisons so far
 
-tvars == <<l, cs, last, gh, stale, nbad>>
+tvars == <<l, cs, last, gh, stale, taint, broken, nbad>>
 
 CIds == 1..4
 
@@ -133,10 +136,12 @@ StepOf(pre, a, e) ==
         rebuilt |-> FALSE]
 
 (* the specification's outcome that best explains the logged geometry *)
-Expected(pre, a, post) ==
+Expected(pre, a, post, ret) ==
     LET all   == Apply(pre, a)
         cands == {o \in all : o.s.b = post.b /\ o.s.t = post.t}
-    IN IF cands # {} THEN CHOOSE o \in cands : TRUE ELSE CHOOSE o \in all : TRUE
+        best  == {o \in cands : o.ret.tag = ret.tag}
+    IN IF best # {} THEN CHOOSE o \in best : TRUE
+       ELSE IF cands # {} THEN CHOOSE o \in cands : TRUE ELSE CHOOSE o \in all : TRUE
 
 RetOwner(op, tag) ==
     CASE op \in {"insert", "try_insert"} ->
@@ -157,7 +162,7 @@ RetOwner(op, tag) ==
 CallBad(pre, a, e, g, stl, lst) ==
     LET post == PostOf(e.st)
         x    == StepOf(pre, a, e)
-        o    == Expected(pre, a, post)
+        o    == Expected(pre, a, post, e.ret)
         sameKeys == KeysOf(o.s.ord) = KeysOf(post.ord)
         forgot == a.op \in IterKinds /\ a.fl
     IN
@@ -265,6 +270,51 @@ CrashBad(pre, a, e, stl) ==
                                             THEN {1} ELSE {}}
     \cup {<<"C16", "clone_source">> : z \in IF a.op = "clone" /\ (post # pre \/ e.fp # e.pre_fp) THEN {1} ELSE {}}
 
+(* C17: what must hold right after an iterator was leaked with mem::forget. *)
+(* Deliberately declarative: the property does not say WHAT remains in a    *)
+(* drained cache, only that it is a valid cache, that nothing it yielded is *)
+(* still inside, and that no object is in two places.                       *)
+ForgetBad(pre, a, e) ==
+    LET post == PostOf(e.st)
+        x    == StepOf(pre, a, e)
+        ys   == e.ret.seq
+        yielded == ToSet(ys) \ {0}
+        rest == SelectSeq(pre.ord, LAMBDA en : en.k \notin yielded)
+    IN
+       {<<"C17", "yield_seq">> : z \in IF ys = IterYields(pre.ord, a.w) THEN {} ELSE {1}}
+    \cup {<<"C17", "WellFormed">> : z \in IF ~post.alive \/ WellFormed(e.st) THEN {} ELSE {1}}
+    \cup {<<"C17", "anomaly">>   : z \in IF e.anom = <<>> THEN {} ELSE {1}}
+    \cup {<<"C17", "alive">>     : z \in IF post.alive = (a.op \notin OwningKinds) THEN {} ELSE {1}}
+    \cup {<<"C17", "borrow_changed">> : z \in IF a.op \in BorrowingKinds /\ (post # pre \/ e.fp # e.pre_fp) THEN {1} ELSE {}}
+    \cup {<<"C17", "sum_recorded">> : z \in IF ~post.alive \/ SumSizes(e.st.hook.fwd) = e.st.cur THEN {} ELSE {1}}
+    \cup {<<"C17", "drained_cache">> : z \in
+             IF a.op = "drain" /\ ~( /\ post.max = pre.max
+                                     /\ C01_Bound(post) /\ C04_NoDup(post)
+                                     /\ post.ord = SelectSeq(rest, LAMBDA en : en.k \in KeysOf(post.ord))
+                                     /\ \A i \in DOMAIN e.st.marks :
+                                           e.st.marks[i] = <<MK(e.st.ord[i][1]), MV(e.st.ord[i][1])>> )
+             THEN {1} ELSE {}}
+    \cup {<<"C17", "conservation">> : z \in
+             IF /\ x.dropped \cap x.handed = {}
+                /\ StoredObjs(e.st) \cap (x.dropped \cup x.handed) = {}
+                /\ (a.op \in BorrowingKinds => x.dropped = {} /\ x.handed = {})
+                /\ (a.op \notin BorrowingKinds =>
+                       x.handed \cup x.dropped \subseteq MarkersOf(pre.ord))
+                /\ (a.op \in {"drain", "into_iter"} =>
+                       x.handed = MarkersOf(SelectSeq(pre.ord, LAMBDA en : en.k \in yielded)))
+             THEN {} ELSE {1}}
+    \cup {<<"C17", "probes">>    : z \in IF ~post.alive \/ ProbesOK(e) THEN {} ELSE {1}}
+    \cup {<<"C17", "frame">>     : z \in IF \A i \in DOMAIN e.others : e.others[i][2] THEN {} ELSE {1}}
+
+(* After a forgotten iterator / an injected panic in this segment, every   *)
+(* later discrepancy is a consequence of how the code coped with it: "the   *)
+(* cache can still be used" is what C16 / C17 demand, so the discrepancy    *)
+(* belongs to them and to no other property.                                *)
+Retaint(bad, tn) ==
+    IF tn = "none" THEN bad
+    ELSE {IF pf[2] = "shrink_raises_with_tombstones" THEN pf    \* finding F5 stays with C13
+          ELSE <<IF tn = "forget" THEN "C17" ELSE "C16", pf[2]>> : pf \in bad}
+
 -----------------------------------------------------------------------------
 
 Fn(f, c, v) == [f EXCEPT ![c] = v]
@@ -280,19 +330,22 @@ TraceInit ==
     /\ last = [c \in CIds |-> DeadSt]
     /\ gh = [c \in CIds |-> GhostInit(0)]
     /\ stale = [c \in CIds |-> {}]
+    /\ taint = "none"
+    /\ broken = FALSE
     /\ nbad = 0
 
 (* a reset line: all caches were dropped; nothing may be alive unless the   *)
 (* segment leaked on purpose (forgotten iterator, injected panic)           *)
 ResetStep(e) ==
-    LET bad == {<<"C06", "leak_at_end">> : z \in IF e.fin.live = 0 \/ e.leak_ok THEN {} ELSE {1}}
-               \cup {<<"C06", "anomaly_at_end">> : z \in IF e.fin.anom = <<>> THEN {} ELSE {1}}
+    LET bad == Retaint({<<"C06", "leak_at_end">> : z \in IF e.fin.live = 0 \/ e.leak_ok THEN {} ELSE {1}}
+               \cup {<<"C06", "anomaly_at_end">> : z \in IF e.fin.anom = <<>> THEN {} ELSE {1}}, taint)
     IN /\ (IF bad = {} THEN TRUE
            ELSE PrintT(<<"BAD", ToJson([line |-> l, i |-> 0, op |-> "reset", bad |-> bad])>>))
        /\ cs' = [c \in CIds |-> Dead]
        /\ last' = [c \in CIds |-> DeadSt]
        /\ gh' = [c \in CIds |-> GhostInit(0)]
        /\ stale' = [c \in CIds |-> {}]
+       /\ taint' = "none" /\ broken' = FALSE
        /\ nbad' = nbad + Cardinality(bad)
 
 NewStep(e) ==
@@ -304,6 +357,7 @@ NewStep(e) ==
     IN /\ Report(l, bad)
        /\ cs' = Fn(cs, c, post) /\ last' = Fn(last, c, Remember(e.st))
        /\ gh' = Fn(gh, c, GhostInit(a.kh)) /\ stale' = Fn(stale, c, {})
+       /\ taint' = taint /\ broken' = broken
        /\ nbad' = nbad + Cardinality(bad)
 
 DropStep(e) ==
@@ -311,9 +365,10 @@ DropStep(e) ==
         bad == {<<"C06", "dropped">> : z \in IF ToSet(e.dropped) = MarkersOf(pre.ord) THEN {} ELSE {1}}
                \cup {<<"C06", "anomaly">> : z \in IF e.anom = <<>> THEN {} ELSE {1}}
                \cup {<<"C14", "frame">> : z \in IF \A i \in DOMAIN e.others : e.others[i][2] THEN {} ELSE {1}}
-    IN /\ Report(l, bad)
+    IN /\ Report(l, Retaint(bad, taint))
        /\ cs' = Fn(cs, c, Dead) /\ last' = Fn(last, c, DeadSt)
        /\ gh' = gh /\ stale' = Fn(stale, c, {})
+       /\ taint' = taint /\ broken' = broken
        /\ nbad' = nbad + Cardinality(bad)
 
 CloneStep(e) ==
@@ -335,25 +390,30 @@ CloneStep(e) ==
        /\ cs' = [cs EXCEPT ![c] = post, ![d] = dpost]
        /\ last' = [last EXCEPT ![c] = Remember(e.st), ![d] = Remember(e.dst)]
        /\ gh' = Fn(gh, d, gh[c]) /\ stale' = Fn(stale, d, stale[c])
+       /\ taint' = taint /\ broken' = broken
        /\ nbad' = nbad + Cardinality(bad)
 
 CallStep(e) ==
     LET c == e.c  pre == cs[c]  a == ArgOf(e)  post == PostOf(e.st)
         x == StepOf(pre, a, e)
-        specPanics == \E o \in Apply(pre, a) : o.ret.tag = "panic"
+        specPanics == a.op # "clone" /\ \E o \in Apply(pre, a) : o.ret.tag = "panic"
         crashed == e.panic.kind # "none" /\ ~(e.panic.kind = "unexpected" /\ specPanics)
-        bad == IF crashed
+        forgot  == a.op \in IterKinds /\ a.fl /\ ~crashed
+        bad0 == IF forgot THEN ForgetBad(pre, a, e) ELSE IF crashed
                THEN (IF e.panic.kind = "unexpected"
                      THEN {<<p, "unexpected_panic">> : p \in RetOwner(a.op, "")} ELSE {})
                     \cup CrashBad(pre, a, e, stale[c])
                ELSE CallBad(pre, a, e, gh[c], stale[c], last[c])
                     \cup {<<"C13", "C13_GrowthBound">> : z \in
                              IF C13_GrowthBound(post, GhostNext(gh[c], pre, a, x)) THEN {} ELSE {1}}
+        bad == Retaint(bad0, taint)
         st1 == (stale[c] \cap KeysOf(post.ord)) \ {x.fresh}
     IN /\ Report(l, bad)
        /\ cs' = Fn(cs, c, post) /\ last' = Fn(last, c, Remember(e.st))
        /\ gh' = Fn(gh, c, GhostNext(gh[c], pre, a, x))
        /\ stale' = Fn(stale, c, IF crashed /\ a.op = "mutate" THEN st1 \cup {a.k} ELSE st1)
+       /\ taint' = IF crashed THEN "crash" ELSE IF forgot THEN "forget" ELSE taint
+       /\ broken' = (post.alive /\ ~WellFormed(e.st))
        /\ nbad' = nbad + Cardinality(bad)
 
 TraceNext ==
@@ -361,6 +421,7 @@ TraceNext ==
     /\ l' = l + 1
     /\ LET e == Rec[l] IN
        IF "reset" \in DOMAIN e THEN ResetStep(e)
+       ELSE IF broken THEN UNCHANGED <<cs, last, gh, stale, taint, broken, nbad>>
        ELSE IF e.a.op = "new" THEN NewStep(e)
        ELSE IF e.a.op = "drop" THEN DropStep(e)
        ELSE IF e.a.op = "clone" /\ e.panic.kind = "none" THEN CloneStep(e)
